@@ -11,6 +11,7 @@ package main
 // that defines it (loops). Pruning removes only infeasible paths.
 
 import (
+	"reflect"
 	"fmt"
 	"go/token"
 	"sort"
@@ -242,7 +243,11 @@ func (p *Prog) reachGen(fn *ssa.Function, from ssa.Instruction, startBlock *ssa.
 		next *frame
 		dep  int
 		sig  string
+		bind map[*ssa.Parameter]ssa.Value // the helper's parameters as passed on this call chain
 	}
+	dyn := p.cutMatchersOf(cut)
+	savedBind := p.bind
+	defer func() { p.bind = savedBind }()
 	type state struct {
 		b      *ssa.BasicBlock
 		i      int
@@ -284,6 +289,10 @@ func (p *Prog) reachGen(fn *ssa.Function, from ssa.Instruction, startBlock *ssa.
 		for i := s.i; i < len(s.b.Instrs); i++ {
 			in := s.b.Instrs[i]
 			p.curFacts = s.f
+			p.bind = nil
+			if s.stack != nil {
+				p.bind = s.stack.bind
+			}
 			if _, isRet := in.(*ssa.Return); isRet && s.stack != nil {
 				// return from a helper explored in line: resume in the caller
 				fr := s.stack
@@ -347,7 +356,7 @@ func (p *Prog) reachGen(fn *ssa.Function, from ssa.Instruction, startBlock *ssa.
 							}
 						}
 						if cl != nil && s.stack.dep < 4 {
-							nf := &frame{b: s.b, i: i + 1, fn: cl, next: s.stack, dep: s.stack.dep + 1}
+							nf := &frame{b: s.b, i: i + 1, fn: cl, next: s.stack, dep: s.stack.dep + 1, bind: s.stack.bind}
 							nf.sig = fmt.Sprintf("%s>%p:c", sigOf(s.stack), in)
 							key := fmt.Sprintf("%s|enter|%s", nf.sig, s.f.sig())
 							if !seen[key] {
@@ -374,6 +383,17 @@ func (p *Prog) reachGen(fn *ssa.Function, from ssa.Instruction, startBlock *ssa.
 					if dep < 3 && !onStack {
 						nf := &frame{call: in.(*ssa.Call), b: s.b, i: i + 1, fn: g, next: s.stack, dep: dep + 1}
 						nf.sig = fmt.Sprintf("%s>%p:%d", sigOf(s.stack), in, dep)
+						nf.bind = map[*ssa.Parameter]ssa.Value{}
+						if s.stack != nil {
+							for k, v := range s.stack.bind {
+								nf.bind[k] = v
+							}
+						}
+						for pi, prm := range g.Params {
+							if as := in.(*ssa.Call).Common().Args; pi < len(as) {
+								nf.bind[prm] = as[pi]
+							}
+						}
 						// what the path knows about an argument it knows about the parameter
 						ef := s.f
 						if len(s.f) > 0 {
@@ -409,8 +429,30 @@ func (p *Prog) reachGen(fn *ssa.Function, from ssa.Instruction, startBlock *ssa.
 			continue
 		}
 		succs, fs := p.branchSuccs(s.b, s.f)
+		// inside a helper explored in line, the tests the cut was built from are read with
+		// the helper's parameters standing for what this call chain passed
+		var dynCut *ssa.BasicBlock
+		if s.stack != nil && len(dyn) > 0 && len(s.stack.bind) > 0 {
+			if iff, ok := s.b.Instrs[len(s.b.Instrs)-1].(*ssa.If); ok {
+				p.bind = s.stack.bind
+				cond, neg := stripNot(iff.Cond)
+				for _, m := range dyn {
+					if ok, onTrue := m(cond); ok {
+						if neg {
+							onTrue = !onTrue
+						}
+						if onTrue {
+							dynCut = s.b.Succs[0]
+						} else {
+							dynCut = s.b.Succs[1]
+						}
+					}
+				}
+				p.bind = nil
+			}
+		}
 		for j, sb := range succs {
-			if cut[edge{s.b, sb}] {
+			if cut[edge{s.b, sb}] || sb == dynCut {
 				continue
 			}
 			nf := enterBlock(fs[j], s.b, sb)
@@ -516,6 +558,7 @@ type condMatch func(cond ssa.Value) (matches bool, holdsOnTrue bool)
 // holds, and the number of tests matched.
 func (p *Prog) guardEdges(fn *ssa.Function, m condMatch) (map[edge]bool, int) {
 	cut := map[edge]bool{}
+	p.registerCut(cut, m)
 	n := 0
 	var blocks []*ssa.BasicBlock
 	blocks = append(blocks, fn.Blocks...)
@@ -885,4 +928,52 @@ func (p *Prog) forcesTrue(h *ssa.Function, m condMatch) bool {
 		}
 	}
 	return found
+}
+
+// cutInfo remembers the tests a set of cut edges was computed from, so that a path search
+// can re-read them inside a helper with several call sites (where a parameter has no single
+// meaning) under the arguments of the call chain being followed. The map is kept alive so
+// that its address identifies it.
+type cutInfo struct {
+	m  map[edge]bool
+	ms []condMatch
+}
+
+func cutID(cut map[edge]bool) uintptr {
+	if cut == nil {
+		return 0
+	}
+	return reflect.ValueOf(cut).Pointer()
+}
+
+func (p *Prog) registerCut(cut map[edge]bool, ms ...condMatch) {
+	if p.cutMatchers == nil {
+		p.cutMatchers = map[uintptr]*cutInfo{}
+	}
+	id := cutID(cut)
+	ci := p.cutMatchers[id]
+	if ci == nil {
+		ci = &cutInfo{m: cut}
+		p.cutMatchers[id] = ci
+	}
+	ci.ms = append(ci.ms, ms...)
+}
+
+func (p *Prog) cutMatchersOf(cut map[edge]bool) []condMatch {
+	if ci := p.cutMatchers[cutID(cut)]; ci != nil {
+		return ci.ms
+	}
+	return nil
+}
+
+// unionCuts merges sets of cut edges together with the tests they were computed from.
+func (p *Prog) unionCuts(cuts ...map[edge]bool) map[edge]bool {
+	out := map[edge]bool{}
+	for _, c := range cuts {
+		for e := range c {
+			out[e] = true
+		}
+		p.registerCut(out, p.cutMatchersOf(c)...)
+	}
+	return out
 }
